@@ -13,6 +13,7 @@ import sys
 sys.path.insert(0, os.path.dirname(os.path.dirname(os.path.abspath(__file__))))
 
 from simkit.world import World  # noqa: E402
+from simkit.sched import SimAbort, SimCrash  # noqa: E402
 from checks import common as C  # noqa: E402
 
 PROP = 'C15'
@@ -44,7 +45,130 @@ class ItemError(Exception):
     pass
 
 
+def _gen_callsite(t):
+    """the fan-out as mapproxy's tile manager uses it: several callers (request threads sharing one TileManager) each
+    create several uncached tiles / meta tiles at once through TileCreator._create_threaded"""
+    meta = t.pick([[1, 1], [1, 1], [2, 2]])
+    z = 4
+    n = (1 << z) // meta[0]           # meta tiles per axis
+    cells = []
+    while len(cells) < 12:
+        c = [t.choice(n), t.choice(n)]
+        if c not in cells:
+            cells.append(c)
+    ncall = t.randint(1, 3)
+    callers = []
+    k = 0
+    for _ in range(ncall):
+        m = t.randint(2, 4)
+        # one tile out of each of m distinct meta tiles: no two callers share a meta tile
+        callers.append([[cx * meta[0] + t.choice(meta[0]), cy * meta[1] + t.choice(meta[1]), z] for cx, cy in cells[k:k + m]])
+        k += m
+    return {'kind': 'callsite', 'meta_size': meta, 'creators': t.randint(2, 4), 'callers': callers,
+            'policy': t.pick([['random'], ['sticky', 0.5], ['sticky', 0.2]]),
+            'fail': sorted(set(t.choice(k) for _ in range(t.pick([0, 0, 1, 2])))),     # indexes (in request order) of failing fetches
+            'yields': [t.randint(0, 3) for _ in range(k)]}
+
+
+def _run_callsite(sc, tape):
+    from checks import upstream as U
+    from mapproxy.grid import tile_grid
+    from mapproxy.cache.tile import TileManager
+    from mapproxy.cache.base import TileLocker
+    from mapproxy.image.opts import ImageOptions
+    from mapproxy.source import SourceError
+    w = World(tape, policy=tuple(sc['policy']), step_cap=300000)
+    sched = w.sched
+    meta = sc['meta_size']
+    flat = [c for cl in sc['callers'] for c in cl]
+
+    def cell(c):
+        return (c[0] // meta[0], c[1] // meta[1])
+    idx = dict((cell(c), i) for i, c in enumerate(flat))
+    shared = {'log': [], 'gen': 0}
+
+    def plan(entry):
+        for c in flat:
+            if U.covers(entry['bbox'], tuple(c)):
+                i = idx[cell(c)]
+                entry['item'] = i
+                return {'yields': sc['yields'][i], 'fail': i in sc['fail']}
+        return {}
+    shared['plan'] = plan
+    image_opts = ImageOptions(format='image/png', colors=0)
+    grid = tile_grid(3857, tile_size=(U.TS, U.TS), origin='ll')
+    results = {}
+    v = None
+    with w:
+        cache = C.make_cache({'type': 'file', 'layout': 'tc'})
+        locker = TileLocker('/simfs/locks', 60, cache.lock_cache_id)
+        src = U.SimSource(w, shared, supports_meta_tiles=True, image_opts=image_opts)
+        tm = TileManager(grid, cache, [src], 'png', locker, image_opts=image_opts, meta_size=meta, meta_buffer=0,
+                         concurrent_tile_creators=sc['creators'])
+
+        def caller(ci, coords):
+            def fn():
+                try:
+                    tiles = tm.load_tile_coords([tuple(c) for c in coords])
+                    sched.check_alive()
+                    results[ci] = ('ok', [(t.coord, t.source) for t in tiles])
+                except SourceError as ex:
+                    results[ci] = ('raised', ex)
+            return fn
+        proc = w.new_proc('server')
+        for ci, coords in enumerate(sc['callers']):
+            sched.spawn(caller(ci, coords), 'caller%d' % ci, proc)
+        outcome = w.run_tasks()
+        for t_ in sched.tasks:
+            if t_.exc is not None and not isinstance(t_.exc, (SimAbort, SimCrash)):
+                raise t_.exc
+        if outcome != 'done':
+            v = {'sig': 'C15:callsite-hang', 'msg': 'concurrent tile creations on one tile manager did not terminate: %s %r; '
+                 'finished callers %s' % (outcome, sched.stuck_info, sorted(results))}
+        else:
+            base = 0
+            for ci, coords in enumerate(sc['callers']):
+                mine = set(range(base, base + len(coords)))
+                base += len(coords)
+                failing = sorted(mine & set(sc['fail']))
+                kind, val = results[ci]
+                if kind == 'raised':
+                    if not failing:
+                        v = {'sig': 'C15:callsite-foreign-exception', 'msg': 'caller %d got %r although none of its fetches '
+                             'failed (failing fetches: %s)' % (ci, val, sc['fail'])}
+                        break
+                    continue
+                if failing:
+                    v = {'sig': 'C15:callsite-swallowed-exception', 'msg': 'the fetch for item %s of caller %d failed but the '
+                         'call returned normally' % (failing, ci)}
+                    break
+                got = [tuple(c) for c, _ in val]
+                if got != [tuple(c) for c in coords]:
+                    v = {'sig': 'C15:callsite-wrong-results', 'msg': 'caller %d asked for %s and received %s' % (
+                        ci, [tuple(c) for c in coords], got)}
+                    break
+                for c, source in val:
+                    if source is None:
+                        v = {'sig': 'C15:callsite-missing-result', 'msg': 'caller %d: no image for %s' % (ci, c)}
+                        break
+                    ok, g, msg = U.check_tile_image(source.as_image(), c)
+                    if not ok:
+                        v = {'sig': 'C15:callsite-wrong-results', 'msg': 'caller %d: image for %s is wrong: %s' % (ci, c, msg)}
+                        break
+                if v:
+                    break
+    workers = set(e['task'] for e in shared['log'])
+    probes = {'mode_callsite': 1, 'callsite_callers_%d' % len(sc['callers']): 1}
+    return {'violation': v, 'digest': C.digest_of('callsite', sched.log), 'nontrivial': len(workers) > 1,
+            'steps': sched.steps, 'sim_time': w.clock.now - 1.7e9,
+            'faults': {'upstream_failure': sum(1 for e in shared['log'] if e['ok'] is False)}, 'probes': probes,
+            'sample': {'mode': 'callsite', 'callers': sc['callers'], 'creators': sc['creators'], 'meta_size': meta,
+                       'fail': sc['fail'], 'fetches': len(shared['log'])}}
+
+
 def gen(t, tier):
+    if t.chance(0.12):
+        return _gen_callsite(t)
     api = t.pick(APIS)
     n = t.weighted([(0, 1), (1, 1), (2, 3), (3, 3), (4, 3), (5, 3), (6, 4)])
     sc = {'api': api, 'pool': t.randint(1, 7), 'result_objects': bool(t.choice(2)) if api.startswith('pool.') else False,
@@ -58,6 +182,25 @@ def gen(t, tier):
 
 
 def shrink(sc):
+    if sc.get('kind') == 'callsite':
+        for i in range(len(sc['callers'])):
+            if len(sc['callers']) > 1:
+                c = copy.deepcopy(sc)
+                base = sum(len(x) for x in sc['callers'][:i])
+                n = len(sc['callers'][i])
+                del c['callers'][i]
+                del c['yields'][base:base + n]
+                c['fail'] = [f - n if f >= base + n else f for f in sc['fail'] if not base <= f < base + n]
+                yield c
+        if sc['fail']:
+            c = copy.deepcopy(sc)
+            c['fail'] = sc['fail'][1:]
+            yield c
+        if any(sc['yields']):
+            c = copy.deepcopy(sc)
+            c['yields'] = [0] * len(sc['yields'])
+            yield c
+        return
     for i in range(len(sc['items'])):
         c = copy.deepcopy(sc)
         del c['items'][i]
@@ -91,6 +234,8 @@ def shrink(sc):
 
 
 def run(sc, tape):
+    if sc.get('kind') == 'callsite':
+        return _run_callsite(sc, tape)
     from mapproxy.util import async_
     w = World(tape, policy=tuple(sc['policy']), step_cap=20000)
     sched = w.sched
